@@ -168,8 +168,9 @@ type FailoverController struct {
 	failoversCanceled  uint64
 	failbacksCompleted uint64
 
-	// Event handlers
-	handlers []FailoverEventHandler
+	// Event handlers (handlersMu, not mu: notifyHandlers runs both with and without mu held)
+	handlersMu sync.RWMutex
+	handlers   []FailoverEventHandler
 
 	// Control
 	ctx    context.Context
@@ -251,8 +252,8 @@ func (c *FailoverController) SetRoleChangeCallback(cb RoleChangeCallback) {
 
 // OnFailoverEvent registers a handler for failover events.
 func (c *FailoverController) OnFailoverEvent(handler FailoverEventHandler) {
-	c.mu.Lock()
-	defer c.mu.Unlock()
+	c.handlersMu.Lock()
+	defer c.handlersMu.Unlock()
 	c.handlers = append(c.handlers, handler)
 }
 
@@ -632,8 +633,10 @@ func (c *FailoverController) executeFailback(reason string) {
 
 // notifyHandlers notifies all registered handlers of an event.
 func (c *FailoverController) notifyHandlers(event FailoverEvent) {
+	c.handlersMu.RLock()
 	handlers := make([]FailoverEventHandler, len(c.handlers))
 	copy(handlers, c.handlers)
+	c.handlersMu.RUnlock()
 
 	for _, handler := range handlers {
 		handler(event)
